@@ -65,6 +65,7 @@ def _same(a, b):
 
 
 _MON = {}
+_RETRIED = [False]
 _HANGS = [0]        # runs that did not return, seen by this worker process
 
 
@@ -106,6 +107,59 @@ def _monitor(mkmod):
         return _MON
     except Exception:
         return None
+
+
+_PRIMED = set()
+_SAMPLE = [[0., 9.], [1., 4.], [2., 2.5], [3., 2.], [4., 1.8], [5., 1.7], [6., 1.65], [7., 1.6], [8., 1.6], [9., 1.55], [10., 1.5], [11., 1.5]]
+
+
+def _prime(det):
+    """first calls compile the numba kernels (seconds): make them once per process, outside every alarm-guarded evaluation"""
+    if det in _PRIMED:
+        return
+    import numpy as np
+    import kneeliverse.linear_fit as lf
+    mod = importlib.import_module('kneeliverse.' + det)
+    p = np.array(_SAMPLE)
+    # under its own alarm (the parent process has no SIGALRM handler; a worker's timer is restored by the caller): a detector that
+    # does not return must not stall the priming either
+    def _h(signum, frame):
+        raise Timeout()
+    old_handler = signal.signal(signal.SIGALRM, _h)
+    old_timer = signal.setitimer(signal.ITIMER_REAL, 15.0, 1.0)
+    try:
+        _prime_calls(det, mod, lf, p, np)
+    except Timeout:
+        pass
+    finally:
+        signal.setitimer(signal.ITIMER_REAL, 0)
+        signal.signal(signal.SIGALRM, old_handler)
+        if old_timer[0] > 0:
+            signal.setitimer(signal.ITIMER_REAL, max(0.2, old_timer[0]), old_timer[1])
+    _PRIMED.add(det)
+
+
+def _prime_calls(det, mod, lf, p, np):
+    try:
+        lf.smape_points(p, lf.linear_fit_points(p))
+        lf.linear_r2_points(p, lf.linear_fit_points(p))
+        mod.knee(p)
+        mod.multi_knee(p, 0.0, TMIN[det] + 1)
+    except Exception:
+        pass
+    import kneeliverse.metrics as metrics
+    one = np.array([1.0])
+    for f in (metrics.smape, metrics.residuals):           # one-element operands are typed as contiguous: a separate kernel
+        for a, b in ((one, one), (p[:1, 1], one), (p[:, 1], p[:, 0].copy())):
+            try:
+                f(a, b, 1e-16) if f is metrics.smape else f(a, b)
+            except Exception:
+                pass
+    for k in range(1, 8):                                    # tiny slices take their own paths through the detectors
+        try:
+            mod.knee(p[:k])
+        except Exception:
+            pass
 
 
 class C02:
@@ -174,7 +228,7 @@ class C02:
         lf.smape_points(p, lf.linear_fit_points(p))
         lf.linear_r2_points(p, lf.linear_fit_points(p))
         for d in DETS:
-            importlib.import_module('kneeliverse.' + d)
+            _prime(d)
 
     def on_timeout(self, c):
         c = dict(c)
@@ -193,6 +247,7 @@ class C02:
         t_end = time.monotonic() + self.timeout - 1.0
         det, via, cost, t2 = c['det'], c['via'], c['cost'], int(c['t2'])
         mod = importlib.import_module('kneeliverse.' + det)
+        _prime(det)
         pts = np.ascontiguousarray(np.array(c['points'], dtype=float))
         n = len(pts)
         o_smape, o_r2, o_knee = lf.smape_points, lf.linear_r2_points, mod.knee
@@ -214,6 +269,7 @@ class C02:
             return smemo[(l, r)]
 
         kbudget = [self.oracle_budget]
+        kerr = []
 
         def guarded_knee(p):
             # a single-knee detector that does not return on a slice (C09's business, but it must not stall this check): each
@@ -225,6 +281,14 @@ class C02:
             try:
                 return o_knee(p)
             except Timeout:
+                if not _RETRIED[0]:
+                    # once per process: the time may have gone into a first-call compilation (numba) rather than into the detector
+                    _RETRIED[0] = True
+                    signal.setitimer(signal.ITIMER_REAL, self.oracle_timeout, 1.0)
+                    try:
+                        return o_knee(p)
+                    except Timeout:
+                        pass
                 kbudget[0] = 0.0
                 raise RuntimeError('detector did not return')
             finally:
@@ -244,8 +308,9 @@ class C02:
                         kmemo[(l, r)] = kk if (kk == k and kk >= 0) else 'exc'
                 except Timeout:
                     raise
-                except Exception:
+                except Exception as e:
                     kmemo[(l, r)] = 'exc'
+                    kerr.append('%s %s: %s' % ((l, r), type(e).__name__, e))
             return kmemo[(l, r)]
 
         def D(l, r):
@@ -422,6 +487,7 @@ class C02:
                 pure = False
         c['pure'] = pure
         c['unkeyed'] = unkeyed[0]
+        c['oracle_errors'] = kerr[:5]
 
         # ---- the two real sub-calls of the decomposition
         k0 = K(0, n)
